@@ -86,11 +86,11 @@ type image struct {
 	Lost   int64    `json:"lost"` // number of newest segment files that never reached the disk
 	Idx    []string `json:"idx"`  // per read-only segment of the crashed WAL: ok | missing | empty | short | trunc | zeros | flip
 	Dmg    damage   `json:"dmg"`
-	Post   []int64  `json:"post"` // sizes of entries appended after the recovery
-	Hist   []round  `json:"hist"` // rounds of append + TruncateLog in front of the appends that complete Sizes (WalRecovery.tla: History)
-	Tear   []int64  `json:"tear"` // concretization: bytes kept of every torn record (-1 = chosen by seed)
+	Post   []int64  `json:"post"`  // sizes of entries appended after the recovery
+	Hist   []round  `json:"hist"`  // rounds of append + TruncateLog in front of the appends that complete Sizes (WalRecovery.tla: History)
+	Tear   []int64  `json:"tear"`  // concretization: bytes kept of every torn record (-1 = chosen by seed)
 	RSeed  int64    `json:"rseed"` // concretization: seed of everything else that is chosen at random (0 = derived from -seed)
-	Exp    outcome  `json:"exp"`  // what the operational model of WalRecovery.tla computes (informative)
+	Exp    outcome  `json:"exp"`   // what the operational model of WalRecovery.tla computes (informative)
 	Obs    outcome  `json:"obs"`
 }
 
@@ -170,7 +170,7 @@ type base struct {
 	recs  []rec
 	bases []int64
 	orig  []*proto.LogEntry
-	raw   [][]byte // marshalled payloads
+	raw   [][]byte                  // marshalled payloads
 	stale map[int64]*proto.LogEntry // entries that the history removed, by id (WalRecovery.tla: StaleId)
 }
 
